@@ -151,8 +151,10 @@ PROVED = {
          "invariant over the reader's stack; transferred to the buffered machine for every capacity and chunking. PARTIAL: declared paths without "
          "global placeholders. C01_full_roundtrip_partial: the same with masters given as Full items. C01_reader_roundtrip_known_partial (Proofs/RoundTripKnown.v): "
          "complementary class — every master of known size, declared paths with global placeholders ALLOWED (global elements at any depth, recursive "
-         "masters): the reader yields exactly the document's items, provided the first placeholder-free element is a top-level one (hypothesis dstart; believed — not proved — to follow "
-         "from kconf for derive-consistent specifications; the exhibited counterexample uses a child whose path omits its global parent's placeholder). "
+         "masters): the reader yields exactly the document's items, provided the first placeholder-free element is a top-level one (hypothesis dstart — PROVED to follow from kconf for every specification the derive macro accepts, Proofs/DStart.v: "
+         "C01_derive_consistent + C01_consistent_dstart, so the *_consistent_* / *_derived_* forms of the second-class theorems of C01, C02 and C12 carry no "
+         "start hypothesis; the exhibited counterexample uses a child whose path omits its global parent's placeholder, which derive rejects: "
+         "C01_ex_known_needs_dstart_not_derivable). "
          "C01_reader_roundtrip_raw_partial / C01_roundtrip_raw_partial (Proofs/RoundTripRaw.v): raw tags with well-formed ids round-trip when unknown "
          "ids are allowed — reader half for known-size documents with raw leaves anywhere, writer half (write_raw and write(RawTag)) and the full round "
          "trip. C01_roundtrip_known_partial2 / C01_full_roundtrip_known_partial / C01_mixed_roundtrip_known_partial (Proofs/WriteEncG.v): the writer half and "
@@ -183,12 +185,16 @@ PROVED = {
          "placeholder-free element are accepted from the empty base and the whole sequence from exactly the implied ancestor chain of that element's "
          "declared path (C06_base_determined: no other base is possible); C06_strict_items_based — for whole runs a weaker 'Based' form (after an error "
          "the pinned form is false: C06_ex_pinned_after_error_counterexample); C06_ex_base_absorbs shows an arbitrary base would absorb stray Ends. "
+         "Buffered masters (Proofs/BufferedNesting.v, by composition with C08): C06_buffered_clean_well_nested / _rooted / _items_pinned / _extents / "
+         "_pinned_all — for ANY buffered set, a drain without error outcome (within the driver's item limit) unrolls to a tag sequence the same checkers accept, "
+         "from the same pinned bases; with an error inside a buffered master the statement is false (known finding D29: C06_buffered_error_counterexample, "
+         "rejected from every base). "
          "(Proofs/Extents.v) with oversized children not tolerated: C06_contained — every reachable state keeps the cursor inside every open known-size "
          "master, ranges nested (grow_frames of try_recover preserves it); C06_element_inside — every element read lies inside the byte range of each "
          "enclosing known-size master, a known-size master's whole declared range too; C06_end_at_exhaustion — the End of a known-size master is queued "
          "exactly when the cursor equals the end of its range (or at end of input), never by the closing rule (which pops unknown-size masters only); "
          "C06_run_extents — an independent extent checker over (tag, offset) items and the input bytes accepts every run up to its first error. "
-         "Buffered sets and runs after an error are judged by the correspondence harness' nesting/path/extent checker.", ""),
+         "Buffered runs with errors and extents after an error are judged by the correspondence harness' checkers (check_strict, check_nesting_history).", ""),
  "C07": ("Theorems: the closing rule (count_ended = the largest k such that the k innermost open masters have unknown size and the outermost of them is "
          "ended by the element; nothing closes below a known-size master); C07_items_partial / C07_encoding_choices_irrelevant_partial: every conforming "
          "document reads as its items with each unknown-size master's End right before the next element outside of it or at the end of input, so two "
